@@ -45,7 +45,12 @@ func init() {
 			r := newC13Runner(c)
 			defer r.close()
 			c.Rapid("grammars", c.Pick(1500, 30000), func(t *rapid.T) {
-				gc := DrawGrammar(t, []string{"uniform", "uniform-small", "productive", "nullable", "prec", "prec-sep", "separators", "lalr", "dup-rules", "samehandle", "decl"})
+				fams := []string{"uniform", "uniform-small", "productive", "nullable", "prec", "prec-sep", "separators", "lalr", "dup-rules", "samehandle", "decl"}
+				if rapid.IntRange(0, 149).Draw(t, "big") == 0 {
+					// grammars at and beyond the 2000-state limit: yaccgo must stop with its diagnostic
+					fams = []string{"blowup", "bigauto", "hugerule"}
+				}
+				gc := DrawGrammar(t, fams)
 				text := gc.Text
 				if rapid.Bool().Draw(t, "layout") {
 					text = gc.Spec.Render(spec.RenderOpts{Layout: spec.DrawLayout(t)})
